@@ -11,13 +11,13 @@ from vf.bpenv import BpWorld
 MANIFEST = {
     'text': 'Bounded symbolic model checking of recv_bundle / _finish_bundle / create_report / send of the report: '
             'all 32 combinations of the five report-request flags x report-to {dtn:none, real} x outcome {deliver, '
-            'forward, forward with fragmentation, delete, no route}; subject creation time and sequence number '
+            'forward, forward with fragmentation, forward that fails for lack of a transmit route, delete, no route}; subject creation time and sequence number '
             'symbolic; the transmitted report octets are decoded independently and compared with the requested and '
             'occurred actions.',
     'note': 'Trusted: engine, vf.symcbor, independent reader, z3. Security-failure outcome is exercised in C12.',
     'ref': '5 C19'}
-BOUNDS = {'quick': dict(flags='all 32 combinations', report_to='dtn:none | real', outcomes=5),
-          'thorough': dict(flags='all 32 combinations', report_to='dtn:none | real | own node', outcomes=5)}
+BOUNDS = {'quick': dict(flags='all 32 combinations', report_to='dtn:none | real', outcomes=6),
+          'thorough': dict(flags='all 32 combinations', report_to='dtn:none | real | own node', outcomes=6)}
 ASSUMPTIONS = [
     'one subject bundle per run; CRC type of the subject in {0,2}',
     'forwarded status is judged after the send (the implementation records it after send_bundle returns)',
@@ -27,7 +27,7 @@ QUICK_VALIDATE = 3
 
 NODE = 'dtn://node/'
 FL = dict(deletion=0x40000, delivery=0x20000, forwarding=0x10000, reception=0x4000, time=0x40)
-OUTCOMES = ['deliver', 'forward', 'fragment', 'delete', 'noroute']
+OUTCOMES = ['deliver', 'forward', 'fragment', 'delete', 'noroute', 'fwdfail']
 
 
 def cases(tier):
@@ -43,10 +43,11 @@ def harness(case, tier):
     oc = case['outcome']
     w = BpWorld(node_id=NODE, ctr_cap=12)
     dest = {'deliver': 'dtn://node/app', 'forward': 'dtn://far/app', 'fragment': 'dtn://far/app',
-            'delete': 'dtn://bad/app', 'noroute': 'dtn://nowhere/app'}[oc]
+            'delete': 'dtn://bad/app', 'noroute': 'dtn://nowhere/app', 'fwdfail': 'dtn://lost/app'}[oc]
     w.add_rx_route(r'^dtn://node/.+', 'deliver')
     w.add_rx_route(r'^dtn://far/.*', 'forward')
     w.add_rx_route(r'^dtn://bad/.*', 'delete')
+    w.add_rx_route(r'^dtn://lost/.*', 'forward')      # but there is no transmit route for it
     w.add_tx_route(r'^dtn://far/.*', mtu=160 if oc == 'fragment' else None)
     w.add_tx_route(r'^dtn://rep/.*', mtu=None)
     bits = c.choose(32, 'report-flags')
@@ -71,7 +72,7 @@ def harness(case, tier):
         b = rfc9171.decode_bundle(d)
         (reports if bool((b['primary']['flags'] & 2) != 0) else others).append(b)
     occurred = {'reception': True, 'delivery': oc == 'deliver', 'forwarding': oc in ('forward', 'fragment'),
-                'deletion': oc == 'delete'}
+                'deletion': oc in ('delete', 'fwdfail')}
     if oc in ('forward', 'fragment'):
         c.prove(len(others) >= 1, 'subject-was-forwarded', detail=len(others))
     want_any = case['rep'] == 'real' and any(req[n] and occurred[n] for n in occurred)
